@@ -47,6 +47,7 @@ impl HasDepthLimit<Srcloc, CompileErr> for VisitedInfo {
 trait VisitedInfoAccess {
     fn get_function(&mut self, name: &[u8]) -> Option<Rc<BodyForm>>;
     fn insert_function(&mut self, name: Vec<u8>, body: Rc<BodyForm>);
+    fn remove_function(&mut self, name: &[u8]);
 }
 
 impl VisitedInfoAccess for VisitedMarker<'_, VisitedInfo> {
@@ -61,6 +62,12 @@ impl VisitedInfoAccess for VisitedMarker<'_, VisitedInfo> {
     fn insert_function(&mut self, name: Vec<u8>, body: Rc<BodyForm>) {
         if let Some(ref mut info) = self.info {
             info.functions.insert(name, body);
+        }
+    }
+
+    fn remove_function(&mut self, name: &[u8]) {
+        if let Some(ref mut info) = self.info {
+            info.functions.remove(name);
         }
     }
 }
@@ -1100,6 +1107,7 @@ impl<'info> Evaluator {
                 return Ok(present);
             }
 
+            let guard_name = where_from_vec.clone();
             visited.insert_function(
                 where_from_vec,
                 Rc::new(BodyForm::Call(
@@ -1128,6 +1136,11 @@ impl<'info> Evaluator {
                     None,
                 )),
             );
+
+            // The guard is only for this conditional being entered again from
+            // inside its own branches (recursion).  Another use of the same
+            // code, or a failure in one of the branches, must not find it.
+            visited.remove_function(&guard_name);
 
             // Reproduce the equivalent hull over the used values of
             // (a (i cond surrogate_apply_true surrogate_apply_false))
